@@ -361,6 +361,12 @@ impl std::fmt::Debug for SvcErr {
     }
 }
 
+impl std::fmt::Display for SvcErr {
+    fn fmt(&self, f: &mut std::fmt::Formatter<'_>) -> std::fmt::Result {
+        write!(f, "SvcErr({}, {})", self.0, self.1)
+    }
+}
+
 impl From<SvcErr> for Response<BoxBody> {
     fn from(e: SvcErr) -> Self {
         if let Some(r) = e.2 {
